@@ -108,7 +108,11 @@ def _plain(x):
     if isinstance(x, list):
         return [_plain(v) for v in x]
     if isinstance(x, np.ndarray):
+        if np.iscomplexobj(x):
+            return {"re": np.array(x.real), "im": np.array(x.imag)}
         return np.array(x)
+    if isinstance(x, (complex, np.complexfloating)):
+        return {"re": float(x.real), "im": float(x.imag)}
     if isinstance(x, (np.floating, np.integer, np.bool_)):
         return x.item()
     if hasattr(x, "gTM") and hasattr(x, "gTAA"):
@@ -383,7 +387,11 @@ def serve():
         except BaseException as e:  # noqa
             import traceback
             res = {"harness_error": "%s: %s\n%s" % (type(e).__name__, e, traceback.format_exc()[-1500:])}
-        sys.stdout.write(ser.dumps(res) + "\n")
+        try:
+            out = ser.dumps(res)
+        except BaseException as e:  # noqa
+            out = ser.dumps({"harness_error": "result not serialisable: %s: %s" % (type(e).__name__, e)})
+        sys.stdout.write(out + "\n")
         sys.stdout.flush()
 
 
